@@ -319,12 +319,25 @@ Definition restart_peer (P : peer) (now : N) : peer :=
      last_sent := now - (RekeyTimeout + ns_per_s); kprev := None; kcur := None; knext := None;
      endpoint := endpoint P; rx := rx P; tx := tx P; lh := lh P; staged := [] |}.
 
+(* Peer.Stop as part of RemovePeer: the peer is no longer configured; keys, handshake
+   and staged packets are wiped (ZeroAndFlushAll runs LAST in Stop, after timersStop
+   has waited for every timer callback that was already running). *)
+Definition remove_peer (P : peer) : peer :=
+  {| p_conf := false; p_psk := p_psk P; hs_state := 0; hs_local := 0;
+     hs_remote := hs_remote P; hs_seq := hs_seq P; last_ts := last_ts P; last_cons := last_cons P;
+     last_sent := last_sent P; kprev := None; kcur := None; knext := None;
+     endpoint := endpoint P; rx := rx P; tx := tx P; lh := lh P; staged := [] |}.
+
 Inductive body :=
 | BMsg (src : N) (m : msg)         (* datagram from address src *)
 | BTun (p inner : N)               (* TUN packet routed to peer p, inner length *)
 | BShift (p d : N)                 (* VerifShiftHandshakeTimes *)
 | BRestart                         (* device.Down(); device.Up() *)
 | BLoad (on : bool)                (* VerifForceUnderLoad(10 s) / VerifForceUnderLoad(0) *)
+| BRemoveRace (p : N)              (* device.RemovePeer(p) while the peer's retransmit-handshake timer callback is
+                                      already running (parked on the static identity, as during a private_key
+                                      update): timersStop waits for it, so its initiation is created and sent
+                                      first and everything it created is wiped afterwards *)
 | BInitiate (p k : N).             (* k concurrent calls of SendHandshakeInitiation(false) for peer p (the timer /
                                       keep-fresh / TUN callers): they are serialised by handshake.mutex, the first
                                       sets lastSentHandshake and the others then fail the spacing test, so the
@@ -342,6 +355,14 @@ Definition step (st : state) (e : event) : state * list out :=
           table := []; nseq := nseq st; loaded := loaded st |}, [])
   | BInitiate p k =>
       if p_conf (peers st p) then send_initiation st (e_now e) (e_oidx e) p (peers st p) else (st, [])
+  | BRemoveRace p =>
+      if p_conf (peers st p) then
+        let r := send_initiation st (e_now e) (e_oidx e) p (peers st p) in
+        let st1 := fst r in
+        ({| peers := fun q => if q =? p then remove_peer (peers st1 p) else peers st1 q;
+            table := filter (fun t => negb (t_peer t =? p)) (table st1);
+            nseq := nseq st1; loaded := loaded st1 |}, snd r)
+      else (st, [])
   | BLoad on => ({| peers := peers st; table := table st; nseq := nseq st; loaded := on |}, [])
   end.
 
